@@ -336,7 +336,7 @@ func c19RunBatch(a vh.Args, cases []*c19Case, seq *int) error {
 			return err
 		}
 		cmd := exec.Command(os.Args[0], "C19-child", "-oracle", "none", "-replay", file)
-		cmd.Env = append(os.Environ(), "GOMEMLIMIT=1GiB", "GOTRACEBACK=single")
+		cmd.Env = append(os.Environ(), "GOMEMLIMIT=1GiB", "GOTRACEBACK=single", "TMPDIR="+a.Work) // scratch of a crashed child goes away with a.Work
 		var stderr bytes.Buffer
 		cmd.Stderr = &stderr
 		cmd.Stdout = io.Discard
